@@ -338,6 +338,16 @@ def main():
         if m:
             cmp_stmt = norm_ws(m.group(1))
     w("Definition src_sig_compare : string := %s." % coq_str(cmp_stmt))
+    # tolerant classification: one ct_eq call on two plain operands decides the verdict, and nothing else in
+    # the body compares the presented signature (==, eq_ignore_ascii_case, starts_with, zip, position, memcmp)
+    kind = "other"
+    if body and re.fullmatch(r"(?:bool::from\()?\s*[\w.()&]+?\.ct_eq\(\s*[\w.()&]+\s*\)\s*(?:\.into\(\)|\))?", cmp_stmt or ""):
+        rest = body.replace(cmp_stmt, "")
+        rest = re.sub(r'"(?:[^"\\]|\\.)*"', '""', rest)
+        suspicious = re.search(r"signature\w*\s*(==|!=)|(==|!=)\s*\w*signature|eq_ignore_ascii_case|starts_with|ends_with|\.zip\(|\.position\(|memcmp|\.iter\(\)\.eq\(|(?<!let )(?<!mut )\bis_equal\s*=[^=]|\bis_equal\s*\|=|\bis_equal\s*&=", rest)
+        if not suspicious:
+            kind = "ct_eq"
+    w("Definition src_sig_compare_kind : string := %s." % coq_str(kind))
     w("Definition src_validate_signature_body : string := %s." % coq_str(norm_ws(body) if body else "NOT FOUND"))
     # the same with log macro statements and string literals removed: the control skeleton
     # (order of prevalidate / string-to-sign / key lookup / comparison), insensitive to rewording
